@@ -463,6 +463,28 @@ def World.pull (d : Defects) (w : World) (dst src room : Nat) : World × Nat :=
   let r := Sync.pull d w1.rights (w1.peer dst) (w1.peer src) room
   (w1.setPeer dst r.dst, r.fetched)
 
+/-! canonical (sorted) view of a replica: what a dump shows -/
+
+def insertBy {α : Type} (lt : α → α → Bool) (x : α) : List α → List α
+  | [] => [x]
+  | y :: t => if lt y x then y :: insertBy lt x t else x :: y :: t
+
+/-- stable insertion sort -/
+def sortBy {α : Type} (lt : α → α → Bool) (l : List α) : List α := l.foldr (insertBy lt) []
+
+def lexL : List Nat → List Nat → Bool
+  | [], [] => false
+  | [], _ :: _ => true
+  | _ :: _, [] => false
+  | a :: s, b :: t => a < b || (a = b && lexL s t)
+
+def Replica.canon (r : Replica) : Replica :=
+  { nodes := sortBy (fun a b => lexL [a.id, a.room, a.ent, a.mdate, a.sig] [b.id, b.room, b.ent, b.mdate, b.sig]) r.nodes,
+    edges := sortBy (fun a b => lexL [a.src, a.dest, a.cdate, a.author] [b.src, b.dest, b.cdate, b.author]) r.edges,
+    ntombs := sortBy (fun a b => lexL [a.id, a.ddate, a.author, a.sig] [b.id, b.ddate, b.author, b.sig]) r.ntombs,
+    etombs := sortBy (fun a b => lexL [a.src, a.dest, a.ddate, a.author, a.sig] [b.src, b.dest, b.ddate, b.author, b.sig]) r.etombs,
+    log := r.log }
+
 def pairs (n : Nat) : List (Nat × Nat) :=
   (List.range n).flatMap fun a => ((List.range n).filter (· ≠ a)).map fun b => (a, b)
 
@@ -477,7 +499,7 @@ def World.settle (d : Defects) (room : Nat) : Nat → World → Nat → Nat → 
   | 0, w, n, f => (w, n, false, f)
   | fuel + 1, w, n, _ =>
     let r := w.round d room
-    if r.1.peers = w.peers then (r.1, n + 1, true, r.2)
+    if r.1.peers.map Replica.canon = w.peers.map Replica.canon then (r.1, n + 1, true, r.2)
     else World.settle d room fuel r.1 (n + 1) r.2
 
 end Discret.Sync
